@@ -9,7 +9,14 @@ MANIFEST_ENTRY = dict(
     note=WALLET_NOTE)
 
 PARAMS = dict(quick_cfgs=['MC_C15_quick.cfg'], thorough_cfgs=['MC_C15.cfg'], quick_n=60, thorough_n=500,
-              setup=STD_SETUP, assumptions=WALLET_ASSUME, extra_behaviours=[])
+              setup=STD_SETUP, assumptions=WALLET_ASSUME, extra_behaviours=[
+    # directed: a restore from seed when the last output in chain order is NOT the one with the
+    # highest derivation index (the change output of an earlier send is mined after a later coinbase)
+    [{"ev": "init_send", "w": "w1", "sl": "s1", "amt": 1000}, {"ev": "mine", "to": "w1", "txs": []},
+        {"ev": "lock", "w": "w1", "sl": "s1", "stage": "S1"}, {"ev": "receive", "w": "w2", "sl": "s1"},
+        {"ev": "finalize", "w": "w1", "sl": "s1", "stage": "S2"}, {"ev": "post", "sl": "s1"}, {"ev": "mine", "to": "", "txs": ["s1"]},
+        {"ev": "refresh", "w": "w1"}, {"ev": "restore", "w": "w3", "from": "w1"}, {"ev": "scan", "w": "w3", "start": 1, "del": False},
+        {"ev": "mine", "to": "w3", "txs": []}, {"ev": "refresh", "w": "w3"}, {"ev": "scan", "w": "w3", "start": 1, "del": False}]])
 
 
 def run(tier, replay_path, t0):
